@@ -85,7 +85,7 @@ func unboundCommands() []string {
 
 const c01Probe = "\x18\x1a" // C-x C-z + letter: commands bound by the case
 
-var c01Words = []string{"foo", " ", "bar baz", "(a[b]{c})", "'q w'", "\"x\"", "https://ex.com/a?b=c", "0x1f", "true", "\\", "é", "世", "a", "-", "  ", "foo.bar/baz", "x=1;", "<>", "0", "9", "yes", "`", "$(x)", "\t"}
+var c01Words = []string{"\u212a", "İ", "Ǆ", "foo", " ", "bar baz", "(a[b]{c})", "'q w'", "\"x\"", "https://ex.com/a?b=c", "0x1f", "true", "\\", "é", "世", "a", "-", "  ", "foo.bar/baz", "x=1;", "<>", "0", "9", "yes", "`", "$(x)", "\t"}
 
 var c01CSI = []string{"\x1b[A", "\x1b[B", "\x1b[C", "\x1b[D", "\x1b[H", "\x1b[F", "\x1b[3~", "\x1b[1;5C", "\x1b[1;5D", "\x1b[5~", "\x1b[6~", "\x1bOA", "\x1bOD", "\x1b[Z",
 	"\x1b[", "\x1b[1;", "\x1b[999;999", "\x1bO", "\x1b[200~", "\x1b[201~", "\x1b[1;5", "\x1b\x1b", "\x1b[5;7R", "\x1b[<0;1;1M", "\x1b]0;t\x07"}
@@ -393,6 +393,17 @@ func c01Gen(r *rand.Rand, tier string, idx int) any {
 		c.Plan = limitDigits(genScript(r, c.Mode == "vi", n), 4)
 	}
 	c.Hilite = r.Intn(5) == 0
+	if r.Intn(25) == 0 {
+		// case-insensitive completion of characters whose lower case has another length
+		c.Inputrc += "set completion-ignore-case on\n"
+		c.Comp = true
+		pre := []sess.Step{{W: pick(r, []string{"\u212a", "İ", "Ǆ", "\u212ab"}), Tag: "case-folding-text"}, {W: "\t", Tag: "complete"}, {W: "\t", Tag: "complete"}}
+		if c.Mode == "vi" {
+			pre = append([]sess.Step{{W: "i", Tag: "insert-mode"}}, pre...)
+		}
+		at := r.Intn(len(c.Plan) + 1)
+		c.Plan = append(c.Plan[:at], append(pre, c.Plan[at:]...)...)
+	}
 	if r.Intn(4) == 0 {
 		for _, p := range []string{"right", "tooltip", "secondary", "transient"} {
 			if r.Intn(2) == 0 {
@@ -469,6 +480,8 @@ var c01Comps = [][]string{
 	{"foo", "foobar", "fox", "bar", "baz"},
 	{"alpha"},
 	{},
+	{"kb", "kelvin", "Kb", "is", "ǆ"},
+	{"kb"},
 	{"with space", "with\ttab", "世界", "wörld", "a/b/c", "--flag=", "--flag"},
 	{"x1", "x2", "x3", "x4", "x5", "x6", "x7", "x8", "x9", "x10", "x11", "x12", "x13", "x14", "x15", "x16", "x17", "x18", "x19", "x20", "x21", "x22", "x23", "x24", "x25", "x26", "x27", "x28", "x29", "x30"},
 }
@@ -476,9 +489,23 @@ var c01Comps = [][]string{
 func c01Completer(which int) func(line []rune, cur int) readline.Completions {
 	return func(line []rune, cur int) readline.Completions {
 		vals := c01Comps[which%len(c01Comps)]
-		switch which % 3 {
+		switch which % 5 {
 		case 0:
 			return readline.CompleteValues(vals...)
+		case 3:
+			// two sets of candidates merged, each with its own display options
+			a := readline.CompleteValues(vals...).Tag("first")
+			var args []string
+			for _, v := range []string{"merged-one", "merged-two", "kb", "İs"} {
+				args = append(args, v, "described")
+			}
+			b := readline.CompleteValuesDescribed(args...).Tag("second").DisplayList().NoSort().ListSeparator("--").JustifyDescriptions()
+			return a.Merge(b)
+		case 4:
+			if len(line) > 3 {
+				return readline.CompleteMessage("no candidates after %d characters", len(line))
+			}
+			return readline.CompleteValues(vals...).Merge(readline.CompleteValues("kb", "Kelvin", "İstanbul", "ǆx").NoSort())
 		case 1:
 			var args []string
 			for i, v := range vals {
